@@ -89,6 +89,9 @@ func (g *gateDS) Get(ctx context.Context, k datastore.Key) ([]byte, error) {
 		return g.Batching.Get(ctx, k)
 	}
 	rid, isReader := ctx.Value(ridKey{}).(int)
+	if isReader && rid < 0 {
+		return g.Batching.Get(ctx, k) // the cancel probe: never held
+	}
 	if isReader {
 		val, err := g.Batching.Get(ctx, k)
 		var ch chan struct{}
@@ -151,6 +154,7 @@ type result struct {
 	term    string
 	descr   map[string]any
 	blocked int
+	probeOK bool
 	kinds   []string
 	late    bool
 }
@@ -234,6 +238,8 @@ func runScenario(t *testing.T, w *world, sc scen) (res result) {
 			started bool
 			gated   int // 0: not held; 1: held in its first index read; 2: in its second one
 			gates   [3]chan struct{}
+			ret     int  // length of the schedule emitted when first seen returned (-1: not yet)
+			probed  bool // the cancel probe has been run while this reader was held in its second index read
 			done    atomic.Bool
 			out     string
 			cancel  context.CancelFunc
@@ -241,7 +247,7 @@ func runScenario(t *testing.T, w *world, sc scen) (res result) {
 		}
 		rs := make([]*rd, nr)
 		for i := range rs {
-			r := &rd{}
+			r := &rd{ret: -1}
 			c := context.WithValue(bg, ridKey{}, i)
 			r.ctx, r.cancel = context.WithCancel(c)
 			rs[i] = r
@@ -307,7 +313,7 @@ func runScenario(t *testing.T, w *world, sc scen) (res result) {
 			if g1 {
 				r.gates[1] = gds.arm(i, 1)
 			}
-			if g2 {
+			if g2 && !g2Disabled.Load() {
 				r.gates[2] = gds.arm(i, 2)
 			}
 			n := sc.Ns[i]
@@ -383,6 +389,52 @@ func runScenario(t *testing.T, w *world, sc scen) (res result) {
 			}
 			running(-1)
 		}
+		probeOK := true
+		// cancel probe: while some call is held inside a datastore read of WaitFor, a call whose context
+		// has already ended must still return (real-time bound: a goroutine stuck on a mutex is not
+		// "durably blocked", so synctest.Wait would hang instead of reporting it)
+		probe := func() {
+			need := false
+			for _, r := range rs {
+				if r.gated == 2 && !r.probed {
+					r.probed, need = true, true
+				}
+			}
+			if !need {
+				return
+			}
+			pctx, pc := context.WithCancel(context.WithValue(bg, ridKey{}, -1))
+			pc()
+			var pd atomic.Bool
+			go func() {
+				defer func() { _ = recover(); pd.Store(true) }()
+				_, _ = st.GetByHeight(pctx, 1<<40)
+			}()
+			t0 := realTicks.Load()
+			for !pd.Load() && realTicks.Load()-t0 < 400 { // 2 s of real time
+				runtime.Gosched()
+			}
+			if !pd.Load() {
+				probeOK = false
+				// one concrete failing case is enough: do not hold readers inside WaitFor any more in
+				// this run (every such hold would cost the bound again, or hang a later operation)
+				g2Disabled.Store(true)
+				for i, r := range rs {
+					if r.gated == 2 {
+						release(i) // let the holder go, or nothing else in the store can move
+					}
+				}
+			}
+			synctest.Wait()
+		}
+		checkpoint := func() {
+			for _, r := range rs {
+				if r.ret < 0 && r.done.Load() {
+					r.ret = len(ev)
+				}
+			}
+			probe()
+		}
 		for _, o := range sc.Ops {
 			switch o.K {
 			case SG:
@@ -416,14 +468,18 @@ func runScenario(t *testing.T, w *world, sc scen) (res result) {
 				}
 				running(o.I)
 			}
+			checkpoint()
 		}
 		// let every flush finish and every held reader go
 		wrelease()
+		checkpoint()
 		for round := 0; round < 3; round++ {
 			for i := range rs {
 				release(i)
+				checkpoint()
 			}
 			running(-1)
+			checkpoint()
 		}
 		synctest.Wait()
 		obs := make([]string, nr)
@@ -445,8 +501,16 @@ func runScenario(t *testing.T, w *world, sc scen) (res result) {
 		for i, n := range sc.Ns {
 			ns[i] = emit.N(n)
 		}
-		res.term = fmt.Sprintf("Case12 %s %s %s %d %d", emit.List(ns), emit.List(ev), emit.List(obs), height, head)
-		res.descr = map[string]any{"scenario": sc, "obs": obs, "height": height, "head": head}
+		rets := make([]string, nr)
+		for i, r := range rs {
+			if r.ret < 0 {
+				r.ret = len(ev)
+			}
+			rets[i] = emit.Nat(r.ret)
+		}
+		res.term = fmt.Sprintf("Case12 %s %s %s %d %d %s %s", emit.List(ns), emit.List(ev), emit.List(obs), height, head, emit.List(rets), emit.B(probeOK))
+		res.probeOK = probeOK
+		res.descr = map[string]any{"scenario": sc, "obs": obs, "height": height, "head": head, "returned_at": rets, "cancel_probe_released": probeOK}
 		// cleanup: nothing may outlive the bubble (open every gate still armed, end every context)
 		gds.mu.Lock()
 		for _, m := range gds.rgate {
@@ -514,13 +578,38 @@ func corpus() []scen {
 			Ops: []op{{K: B, Hs: []uint64{1}}, {K: SG, I: 0}, {K: B, Hs: []uint64{3}}, {K: SYNC}, {K: REL, I: 0}}},
 		{Name: "corpus/F5-on-disk-sync-2-readers", Ns: []uint64{5, 5}, Batch: 64,
 			Ops: []op{{K: B, Hs: []uint64{1, 2}}, {K: SG, I: 0}, {K: SG, I: 1, G2: true}, {K: B, Hs: []uint64{5}}, {K: SYNC}, {K: REL, I: 0}, {K: REL, I: 1}}},
+		// a first lookup that missed and is still inside its datastore read while the header is appended
+		// adjacent to Head and Head advances to it: the call must look again, not answer with the stale miss
+		{Name: "corpus/stale-first-lookup-contiguous", Ns: []uint64{2}, Batch: 64,
+			Ops: []op{{K: B, Hs: []uint64{1}}, {K: SG, I: 0}, {K: B, Hs: []uint64{2}}, {K: REL, I: 0}}},
+		{Name: "corpus/stale-first-lookup-contiguous-sync", Ns: []uint64{2}, Batch: 64,
+			Ops: []op{{K: B, Hs: []uint64{1}}, {K: SG, I: 0}, {K: B, Hs: []uint64{2}}, {K: SYNC}, {K: REL, I: 0}}},
+		{Name: "corpus/stale-first-lookup-later-heights", Ns: []uint64{3, 2}, Batch: 2,
+			Ops: []op{{K: B, Hs: []uint64{1}}, {K: SG, I: 0}, {K: SG, I: 1}, {K: B, Hs: []uint64{2, 3, 4}}, {K: B, Hs: []uint64{6}}, {K: REL, I: 0}, {K: REL, I: 1}}},
+		{Name: "corpus/stale-first-lookup-first-batch", Ns: []uint64{5}, Batch: 1,
+			Ops: []op{{K: SG, I: 0}, {K: B, Hs: []uint64{5, 6}}, {K: REL, I: 0}}},
+		// a call held inside the re-lookup's datastore read must not keep other calls from being released
+		{Name: "corpus/held-in-relookup-other-cancelled", Ns: []uint64{3, 4}, Batch: 64,
+			Ops: []op{{K: B, Hs: []uint64{1}}, {K: SU, I: 0, G2: true}, {K: SU, I: 1}, {K: CAN, I: 1}, {K: REL, I: 0}}},
 		// held in the re-lookup (registered, pending read done, not yet in the select) while the header arrives
 		{Name: "corpus/held-in-relookup", Ns: []uint64{3}, Batch: 64,
 			Ops: []op{{K: B, Hs: []uint64{1}}, {K: SU, I: 0, G2: true}, {K: B, Hs: []uint64{3}}, {K: REL, I: 0}}},
 	}
 }
 
+// realTicks advances every 5 ms of REAL time (the goroutine lives outside every synctest bubble)
+var realTicks atomic.Int64
+
+// g2Disabled is set once a cancel probe was not released: see probe()
+var g2Disabled atomic.Bool
+
 func TestC12(t *testing.T) {
+	go func() {
+		for {
+			time.Sleep(5 * time.Millisecond)
+			realTicks.Add(1)
+		}
+	}()
 	rng := emit.NewRand(emit.Seed())
 	out := emit.NewWriter("Model.HeightSub Oracle.C12", "case12", "chk12")
 	out.PerShard(500)
@@ -546,6 +635,7 @@ func TestC12(t *testing.T) {
 		out.Count("readers", fmt.Sprint(len(sc.Ns)))
 		out.Count("write_batch_size", fmt.Sprint(sc.Batch))
 		out.Count("blocked_at_end", fmt.Sprint(r.blocked))
+		out.Count("cancel_probe_released", fmt.Sprint(r.probeOK))
 		for _, k := range r.kinds {
 			out.Count("result", k)
 		}
@@ -981,7 +1071,7 @@ func raceRound(t *testing.T, w *world, rng *emit.Rand, k int) []result {
 		for i, n := range ns {
 			nst[i] = emit.N(n)
 		}
-		r.term = fmt.Sprintf("Case12 %s %s %s %d %d", emit.List(nst), emit.List(ev), emit.List(obs), height, head)
+		r.term = fmt.Sprintf("Case12 %s %s %s %d %d", emit.List(nst), emit.List(ev), emit.List(obs), height, head)+" [] true"
 		r.descr = map[string]any{"kind": []string{"release-all-vs-setheight", "notify-loop-vs-pending", "lock-held-by-notify"}[kind], "readers": nr, "batch": big, "obs": obs, "height": height, "head": head}
 		out = append(out, r)
 		if os.Getenv("VERIF_C12_RACE_ONLY") != "" {
@@ -1192,7 +1282,7 @@ func raceLock(t *testing.T, rng *emit.Rand, k int) []result {
 		if h, err := st.Head(bg); err == nil {
 			head = h.Height()
 		}
-		r.term = fmt.Sprintf("Case12 %s %s %s %d %d", emit.List(rep("2", nr)), emit.List(ev), emit.List(obs), height, head)
+		r.term = fmt.Sprintf("Case12 %s %s %s %d %d [] true", emit.List(rep("2", nr)), emit.List(ev), emit.List(obs), height, head)
 		r.descr = map[string]any{"kind": "lock-held-by-notify", "readers": nr, "batch": farLen + 1, "obs": obs, "height": height, "head": head}
 		out = append(out, r)
 		if os.Getenv("VERIF_C12_RACE_ONLY") != "" {
@@ -1303,7 +1393,7 @@ func raceNotify(t *testing.T, rng *emit.Rand, k int) []result {
 		if h, err := st.Head(bg); err == nil {
 			head = h.Height()
 		}
-		r.term = fmt.Sprintf("Case12 %s %s %s %d %d", emit.List(nst), emit.List(ev), emit.List(obs), height, head)
+		r.term = fmt.Sprintf("Case12 %s %s %s %d %d", emit.List(nst), emit.List(ev), emit.List(obs), height, head)+" [] true"
 		r.descr = map[string]any{"kind": "notify-loop-vs-pending", "readers": nr, "batch": farLen, "obs": obs, "height": height, "head": head}
 		out = append(out, r)
 		if os.Getenv("VERIF_C12_RACE_ONLY") != "" {
